@@ -37,9 +37,9 @@ UBDEF = ("the machine's catalogue of UB kinds is the definition of memory unsafe
          "optimiser-dependent manifestations of UB are not modelled")
 
 prop("C01", title="operation sequences behave like std Vec", equiv=["EquivElem.push_equiv", "EquivPop.pop_equiv", "EquivInsert.insert_equiv", "EquivRemove.remove_equiv", "EquivSwapRemove.swap_remove_equiv", "EquivElem.truncate_equiv", "EquivElem.clear_equiv", "EquivElem.set_len_equiv", "EquivAppend.append_equiv", "EquivAppend.is_empty_equiv"], trusted=[HAND, EXTR, "std::vec::Vec as the oracle of the list-level spec (three-way run)"])
-prop("C02", title="exactly-once ownership", equiv=[], trusted=[HAND, EXTR, UBDEF])
+prop("C02", title="exactly-once ownership", equiv=["EquivDrain.into_drop_equiv"], trusted=[HAND, EXTR, UBDEF])
 prop("C03", title="allocator contract", equiv=["EquivGrow.grow_equiv", "EquivDrop.drop_equiv"], trusted=[HAND, EXTR, UBDEF, "the GlobalAlloc contract as written in Machine.do_realloc/do_dealloc"])
-prop("C04", title="panic safety", equiv=[], trusted=[HAND, EXTR, UBDEF])
+prop("C04", title="panic safety", equiv=["EquivDrain.filter_guard_equiv"], trusted=[HAND, EXTR, UBDEF])
 prop("C05", title="forget safety", equiv=["EquivDrain.drain_filter_equiv"], trusted=[HAND, EXTR, UBDEF])
 prop("C06", title="never-allocated vector", equiv=["EquivAsPtr.as_ptr_equiv", "EquivAsPtr.new_equiv"], trusted=[HAND, EXTR, UBDEF], profiles="dr")
 prop("C07", title="capacity honest / reservation contract / stability", equiv=["EquivCap.len_equiv", "EquivCap.capacity_equiv", "EquivCap.reserve_exact_equiv", "EquivCap.shrink_to_fit_equiv", "EquivCap.shrink_to_equiv", "EquivReserve.reserve_equiv", "EquivReserve.reserve_equiv_policy"], trusted=[HAND, EXTR])
